@@ -84,7 +84,7 @@ META = {
              "and reports exactly the number of distinct hashes. The model is tied to the code by re-encoding every row of real insert bodies byte for byte."),
     "note": ("Trusted: Lean kernel; model<->code correspondence on generated cases (quick 2000, thorough 56000); float64 only inside the exact domain; "
              "hrissan/tdigest, rng draws and the sketch's table order are inputs of the model. Partial: one_row_per_key is per aggregator bucket (a body of several "
-             "buckets may repeat a key, by design); sampling (budget binds), string-top resample and built-in metrics are not modelled; the harness aggregator has an empty metric storage, so the per-metric skip_min_host / skip_max_host / skip_sum_square flags of user-metric meta are never set (seed C03-r7-2 is missed for that reason). "
+             "buckets may repeat a key, by design); sampling (budget binds), string-top resample and built-in metrics are not modelled; round 7: the per-metric skip_min_host / skip_max_host / skip_sum_square switches of user-metric meta are checked by a direct oracle (caseSkipFlags: real journal meta -> real multiValueMarshal, first use and cached path of metricIndexCache), not by the Lean row model, which has no such switches. "
              "Defect found: argMin/argMax column readers kept fields of the previous result block in reused slots (fixes/C03-argminmax-stale-slot.diff); "
              "the model and theorems are for the fixed reader, the old reader is the `.stale` variant with a `decide` counterexample."),
     "design_ref": "DESIGN.md §6 C03",
